@@ -536,6 +536,11 @@ def check_history(h, stop_at_first=True):
     npaths0 = len(w.paths)
     state = {i: {'appended': False, 'closed_ok': None} for i in range(npaths0)}
     clones = []            # (original index, clone index)
+    grp = list(range(npaths0))   # union-find: paths that may legitimately share Segment objects (append, flatten, fromSegments); a clone is a fresh group
+    def find(i):
+        while grp[i] != i: i = grp[i]
+        return i
+    INPLACE = ('round', 'balance', 'remove', 'q2c', 'append')     # the operations that edit Segment/list objects in place on the unchanged library
     for i, p in enumerate(w.paths):
         v = value(p)
         state[i]['closed_ok'] = bool(v) and p.closed and v[0][1][0] == v[-1][1][-1]
@@ -559,8 +564,10 @@ def check_history(h, stop_at_first=True):
         for pid, (obj, x, y) in pts.items():
             if (obj.x, obj.y) != (x, y) and not (obj.x != obj.x and x != x):
                 fail('C07-point-mutated', f'a pre-existing Point object changed from {(x, y)} to {(obj.x, obj.y)} during {k}'); break
-        shared_with_receiver = [bool(set(ids_before[r]) & set(ids_before[j])) and j != r for j in range(len(before))]
-        dup_receiver = len(set(ids_before[r])) != len(ids_before[r])
+        # sharing explains a failure only where the recorded findings say it does: an in-place editor acting on a path that
+        # legitimately shares objects (same group), or on a path holding the same object twice
+        shared_with_receiver = [bool(set(ids_before[r]) & set(ids_before[j])) and j != r and find(j) == find(r) and k in INPLACE for j in range(len(before))]
+        dup_receiver = len(set(ids_before[r])) != len(ids_before[r]) and k in INPLACE
         for j in range(len(before)):
             # closedness unchanged
             if w.paths[j].closed != closed_before[j]:
@@ -621,6 +628,7 @@ def check_history(h, stop_at_first=True):
                 if v1 != v0:   # a representation switch snaps an isclose-only joint shut: same root cause as the gap itself
                     fail('C07-append-isclose-gap' if (conn_before[r] == 'close' and k == 'fromNodelist') else 'C07-new-object-mutated', f'{k} changed its receiver {r}')
             if k == 'append':
+                grp[find(q)] = find(r)
                 state[r]['appended'] = True
                 if after[q] != before[q] and q != r: fail('C07-new-object-mutated', f'append changed its argument {q}')
         # new paths
@@ -628,6 +636,7 @@ def check_history(h, stop_at_first=True):
             n = len(state)
             v = value(w.paths[n])
             state[n] = {'appended': state[r]['appended'], 'closed_ok': bool(v) and w.paths[n].closed and (v[0][1][0] == v[-1][1][-1])}
+            grp.append(find(r) if k in ('flatten', 'fromSegments') else n)
             if k == 'clone': clones.append((r, n))
             if not err and k in ('clone', 'flatten', 'fromNodelist'):
                 if w.paths[n].closed != closed_before[r]: fail('C07-closedness', f'{k} of path {r} returned a path with a different closed flag')
@@ -676,7 +685,7 @@ def segment_level(rng, n):
     return fails, ev
 
 
-FAMILIES = ['random', 'random', 'random', 'near-touch', 'flatten-round', 'append-mutate', 'self-append', 'closed-append', 'clone-chain']
+FAMILIES = ['random', 'random', 'random', 'near-touch', 'flatten-round', 'append-mutate', 'self-append', 'closed-append', 'clone-chain', 'open-return', 'double-append', 'requery']
 
 
 def family_history(rng, fam, maxlen):
@@ -712,6 +721,30 @@ def family_history(rng, fam, maxlen):
         b = rand_init_path(rng, ints=ints, closed=False)
         ops = [['append', 0, 1]] + [rng.choice([['asNodelist', 0], ['asSegments', 0], ['reverse', 0]]) for _ in range(rng.randint(0, 2))]
         return {'init': [a, b], 'ops': ops}
+    if fam == 'open-return':
+        # an OPEN path that happens to come back to its own start (with a line or a curve), through representation switches
+        a = rand_init_path(rng, ints=ints, closed=False, nseg=rng.randint(2, 5), style=rng.choice(['mixed', 'lines']))
+        st = list(a['segments'][0]['points'][0])
+        last = a['segments'][-1]
+        if rng.random() < 0.5: a['segments'][-1] = {'kind': 'Line', 'points': [list(last['points'][0]), st]}
+        else: last['points'][-1] = st
+        ops = [rand_simple(rng, 0) for _ in range(rng.randint(0, 2))] + [['asNodelist', 0]] + [rand_simple(rng, 0) for _ in range(rng.randint(0, 2))] + \
+              [rng.choice([['asSegments', 0], ['reverse', 0], ['round', 0], ['clone', 0]])]
+        return {'init': [a], 'ops': ops}
+    if fam == 'double-append':
+        # the same argument appended twice (its Segment objects then occur twice in the receiver), then a rebuilding operation
+        b = rand_init_path(rng, ints=ints, closed=False, nseg=rng.randint(1, 3))
+        ops = [['append', 0, 1], ['append', 0, 1]] + [rng.choice([['reverse', 0], ['translate', 0, 3.0, -2.0], ['scale', 0, 2.0], ['rotate', 0, 1.0, 2.0, 0.5], ['addExtremes', 0],
+                                                                  ['flatten', 0, 8], ['clone', 0], ['asNodelist', 0]]) for _ in range(rng.randint(1, 3))]
+        return {'init': [a, b], 'ops': ops}
+    if fam == 'requery':
+        # ask, edit in place, ask again (state cached on Segment/path objects must not survive the edit)
+        d = rng.choice([8, 8, 20.0, 50])
+        ask = lambda: rng.choice([['flatten', 0, d], ['flatten', 0, d], ['clone', 0], ['addExtremes', 0]])
+        edit = lambda: rng.choice([['round', 0], ['round', 0], ['balance', 0], ['remove', 0, 0.2, 5.0], ['q2c', 0]])
+        ops = [ask()] + [edit() for _ in range(rng.randint(1, 2))] + [ask()]
+        if ops[0][0] == 'addExtremes': ops[-1] = ['flatten', 0, d]
+        return {'init': [a], 'ops': ops}
     if fam == 'clone-chain':
         ops = [['clone', 0]]
         w = World(copy.deepcopy([a])); w.apply(ops[0])
